@@ -26,6 +26,8 @@ RECV = SHARD.get("recv", 4096)
 CMIN = SHARD.get("cmin", 0)
 CMAX = SHARD.get("cmax", 0)
 POOL = SHARD.get("pooling", False)
+RA_DEAD = SHARD.get("ra_dead", 0)      # retry_attempts in the failed-node scenarios: 0 = evicted at once, 2 = fresh failure record
+WARM = SHARD.get("warm", False)        # pooled clients: open two connections per node before anything fails
 
 ENDPOINT = ("cfg.abc.cache.amazonaws.com", 11211)
 NODES = [("node%d.abc.cache.amazonaws.com" % i, "10.0.0.%d" % i, 11210 + i) for i in range(1, 5)]
@@ -104,12 +106,20 @@ def _scenario(masks, use_vpc, cut, dead=None):
     try:
         c = AWSElastiCacheHashClient("%s:%d" % ENDPOINT, socket_module=net, use_vpc=use_vpc, default_noreply=False,
                                      use_pooling=POOL, timeout=5, connect_timeout=5,
-                                     retry_attempts=0 if dead is not None else 2)
+                                     retry_attempts=RA_DEAD if dead is not None else 2, retry_timeout=5)
     except Exception as e:
         return viol("construction raised", type(e).__name__, e, "for configuration", _config_text(masks[0]), "cut", cut)
     msg = _check_rotation(c, net, nodes, masks[0], use_vpc, "construction")
     if msg:
         return viol(msg, "(use_vpc=%s, cut %s)" % (use_vpc, cut))
+    if WARM and POOL:
+        for cl in c.clients.values():
+            a = cl.client_pool.get()
+            b = cl.client_pool.get()
+            a.get("warm")
+            b.get("warm")
+            cl.client_pool.release(a)
+            cl.client_pool.release(b)
     if dead is not None and masks[0] & (1 << dead):
         # node `dead` refuses connections until HashClient evicts it (retry_attempts=0: on the first failure), then recovers
         host, ip, port = NODES[dead]
@@ -224,6 +234,8 @@ def shards(tier):
     out.append(dict(fn="h_config", timeout=T, shard=dict(cmin=0, cmax=0, recv=7, pooling=True)))
     out.append(dict(fn="h_reconf", timeout=T, shard=dict(nrec=1)))
     out.append(dict(fn="h_reconf", timeout=T, shard=dict(nrec=1, pooling=True)))
+    out.append(dict(fn="h_reconf", timeout=T, shard=dict(nrec=1, pooling=True, warm=True, ra_dead=2)))
+    out.append(dict(fn="h_reconf", timeout=T, shard=dict(nrec=1, ra_dead=2)))
     if thorough:
         out.append(dict(fn="h_reconf", timeout=2400, shard=dict(nrec=2)))
     out.append(dict(fn="h_error", timeout=T, shard={}))
@@ -234,7 +246,8 @@ BOUNDS = {
     "quick": "4-node universe (distinct host names, IPs, ports): every non-empty advertised subset (symbolic mask) x use_vpc "
              "x every cut position of the config reply (0..239) and receive sizes 4/7; every pair of successive "
              "configurations (15 x 15, scale-up, scale-down, replacement) with and without pooling, optionally after one "
-             "node (symbolic) failed and was evicted; after construction and "
+             "node (symbolic) failed and was evicted, or failed once within retry_timeout (pooled clients holding two "
+             "connections each); after construction and "
              "each reconfigure_nodes(): rotation == advertised names, 10-key corpus routed (real set) only to advertised "
              "nodes on the advertised address form and port, replaced clients' connections closed; ERROR / SERVER_ERROR / "
              "CLIENT_ERROR answers to the config command cut at every position",
